@@ -244,3 +244,14 @@ def brief(x):
         return s
     except Exception as e:  # noqa
         return {"cls": type(x).__name__, "err": repr(e)}
+
+
+def mech_field(path: str) -> str:
+    """field name for a violation key (the mechanism, not the instance): indices dropped, nothing below an
+    attribute dictionary (whose keys are data): 'atoms[3].attrib.k_x[2]' -> 'atoms.attrib', 'coords[0, 1]' -> 'coords'"""
+    import re
+
+    parts = [q for q in re.sub(r"\[[^\]]*\]", "", str(path)).strip(".").split(".") if q]
+    if "attrib" in parts:
+        parts = parts[:parts.index("attrib") + 1]
+    return ".".join(parts[:3]) or "value"
